@@ -12,6 +12,7 @@ import (
 	"path/filepath"
 	"strconv"
 	"strings"
+	"sync/atomic"
 )
 
 // vh raft node1 <seed> <sequences> <steps> <outdir>
@@ -229,6 +230,8 @@ func (g *node1Gen) restart(emit bool) error {
 func (g *node1Gen) step() error {
 	n := g.n
 	r := n.r
+	atomic.AddInt64(&simBeat, 1)
+	simDoing.Store("an event of the single-node driver")
 	pre := n.dump()
 	c := g.rnd.Intn(100)
 	switch {
